@@ -2,22 +2,11 @@ import Afkak.Monitor.C16
 /-!
 # C16 — full-strength statements that are NOT proved (and why)
 
-The state invariants and all trace monitors but the two below are discharged in `AfkakProps/C16.lean`
-(`C16_fenced_trace`, `C16_join_after_drain`, `C16_one_join`, `C16_heartbeat_only_stable` moved there
-from this file).
+The state invariants and all trace monitors are discharged in `AfkakProps/C16.lean`, except the two
+statements below, which are false of the code (counterexamples proved there).
 -/
 namespace Afkak.Props.C16.Open
 open Afkak.Group Afkak.Consts Afkak.Monitor.C16
-
-/-- Consumers are started with exactly the member id and generation of the last processed successful
-    join reply (monitor `startsWithJoinIds`, run on every implementation trace; added with fix 842f323,
-    before which a late heartbeat failure could clear the new member id between the join and the sync
-    reply).  What IS proved: they are started with the member's ids after the sync step
-    (`C16_starts_committed`) and every join reply is adopted (`C16_join_adopted`).  Missing for this
-    statement: the invariant that between the join reply and the sync reply nothing rewrites the ids
-    (no heartbeat outstanding — it is abandoned at the join reply and none is sent while a rejoin is
-    wanted — and no live consumer whose error could clear the member id). -/
-def C16_starts_with_join_ids : Prop := ∀ (cfg : Cfg) (evs : List Ev), startsWithJoinIds (toMSteps (run cfg evs)) = true
 
 /-- The STRICT reading of "after stop no group request other than the leave": after `stop()` has been
     CALLED on a started, not stopping member.  FALSE of the code (`C16_strict_after_stop_counterexample`,
